@@ -896,6 +896,10 @@ class OmniParser(PVLParser):
     all forms of "PVL" that are thrown at it.
     """
 
+    # The most recent value returned by parse_value() and the token that
+    # it started from, see parse_module_post_hook().
+    _last_value = None
+
     def _empty_value(self, pos):
         eq_pos = self.doc.rfind("=", 0, pos)
         lc = linecount(self.doc, eq_pos)
@@ -913,6 +917,7 @@ class OmniParser(PVLParser):
         """
         nodash = re.sub(r"-[\n\r\f]\s*", "", s)
         self.doc = nodash
+        self._last_value = None
 
         return super().parse(nodash)
 
@@ -938,7 +943,17 @@ class OmniParser(PVLParser):
                 last_token = Token(
                     last_v, grammar=self.grammar, decoder=self.decoder
                 )
-                if last_token.is_parameter_name():
+                # Only a value that was written as an unquoted string can
+                # really have been the next Parameter Name: not NULL (which
+                # would read as "None"), not the text within a quoted
+                # string, and not the placeholder for an empty value.
+                if (
+                    self._last_value is not None
+                    and self._last_value[0] is last_v
+                ):
+                    last_token = self._last_value[1]
+
+                if isinstance(last_v, str) and last_token.is_parameter_name():
                     # Fix the previous entry
                     module.pop()
                     module.append(last_k, self._empty_value(t.pos))
@@ -994,6 +1009,17 @@ class OmniParser(PVLParser):
                 return str(err.token), self._empty_value(after_eq)
             else:
                 raise
+
+    def parse_value(self, tokens: abc.Generator):
+        """Extends the parent function to remember the token that the
+        value starts with, so that parse_module_post_hook() can tell
+        how the previous value was written.
+        """
+        t = next(tokens)
+        tokens.send(t)
+        value = super().parse_value(tokens)
+        self._last_value = (value, t)
+        return value
 
     def parse_value_post_hook(self, tokens: abc.Generator):
         """Overrides the parent function to allow for more
